@@ -41,6 +41,11 @@ for f in sorted(glob.glob(os.path.join(V, "seeded", "*", "meta.json"))):
     what = m.get("what_changed", "")
     what = what.split(":")[0][:110] if ":" in what[:140] else what[:110]
     need = (m.get("needs_to_manifest", "") or "")[:160].replace("|", "/").replace("\n", " ")
+    if m.get("superseded_by_fix"):
+        out.append("| %s | %s | %s | no longer a break: %s |" % (m.get("name"), what.replace("|", "/"), need, m["superseded_by_fix"].split(":")[0]))
+        continue
+    if m.get("caught_by_property"):
+        need = need + " (caught by the check of " + m["caught_by_property"] + ")"
     out.append("| %s | %s | %s | %s |" % (m.get("name"), what.replace("|", "/"), need, ("**missed**" if det is False else ", ".join("`%s`" % s for s in sigs[:3]) + (" …" if len(sigs) > 3 else ""))))
 txt = "\n".join(out) + "\n"
 p = os.path.join(V, "DESIGN.md")
